@@ -118,4 +118,251 @@ theorem c17_diff_value (oE oX : Obs) (R D : List Ev)
 
 example : subU64 8 5 = 3 ∧ subU64 5 8 = 2 ^ 64 - 3 := by decide
 
+
+/-- `c17_events_keep_nesting`: the ENTRY/EXIT records of the stream, with the events taken out, are
+    exactly the eager trace of the executed history (`evCalls`, the specification of C02: properly
+    nested, depth = number of open calls, time stamps = the hooks' clock readings).  Events never sit
+    inside another call's ENTRY/EXIT pair than the one whose hook saved them (`c17_read_diff_placement`). -/
+theorem c17_events_keep_nesting (cfg : ECfg) (hp : PlainE cfg) (k : Kind) (cs : ECalls) (vars : List Nat)
+    (glob : List (Option Nat))
+    (hm : cs.height ≤ cfg.base.maxStack) (hd : cs.height ≤ cfg.base.depthOpt) (ht : cs.timed)
+    (hmin : cfg.base.minSize = 0) (hen : cfg.base.enabled0 = true) :
+    (runECalls cfg k (ESt.init cfg vars glob) cs).out.filterMap recOf = evCalls 0 cs.erase := by
+  rw [(c17_emit_exact cfg hp k cs vars glob hm hd ht hmin hen).1, recs_specCalls]
+
+/-! ## Part 2: watchpoints -/
+
+/-- `c17_watch_iff_change` (cpu): at a hook with room for one more pending event, `-W cpu` saves an
+    event exactly when this is the thread's first observation or the cpu differs from the previously
+    observed one; the event carries the observed cpu; and the observation is remembered in either case
+    (so "previously observed" is literally the value seen at the previous hook). -/
+theorem c17_watch_iff_change (s : ESt) (t ridx cpu : Nat) (hroom : s.pend.length < MAX_EVENT) :
+    ((saveWatchCpu s t ridx cpu (!s.winited)).pend = s.pend ++ [cpuEv t ridx cpu] ↔
+      (s.winited = false ∨ s.wcpu ≠ some cpu)) ∧
+    ((saveWatchCpu s t ridx cpu (!s.winited)).pend = s.pend ∨
+      (saveWatchCpu s t ridx cpu (!s.winited)).pend = s.pend ++ [cpuEv t ridx cpu]) ∧
+    (saveWatchCpu s t ridx cpu (!s.winited)).wcpu = some cpu := by
+  unfold saveWatchCpu
+  by_cases h : s.winited = false ∨ s.wcpu ≠ some cpu
+  · have hc : ((s.wcpu != some cpu || !s.winited) && decide (s.pend.length < MAX_EVENT)) = true := by
+      rcases h with h | h <;> simp [h, hroom]
+    simp [hc, h]
+  · have h' : s.winited = true ∧ s.wcpu = some cpu := by
+      constructor
+      · cases hw : s.winited <;> simp_all
+      · by_cases hq : s.wcpu = some cpu <;> simp_all
+    have hc : ((s.wcpu != some cpu || !s.winited) && decide (s.pend.length < MAX_EVENT)) = false := by
+      simp [h'.1, h'.2]
+    simp [h'.1, h'.2]
+
+example : (({} : ESt).pend.length < MAX_EVENT) := by decide
+
+/-- single-thread invariant of a watched variable: the global item holds nothing yet, or what this
+    thread saw last -/
+def VarSync (s : ESt) (k : Nat) : Prop :=
+  s.glob[k]? = some none ∨ (∃ v, s.glob[k]? = some (some v) ∧ s.wcopy[k]? = some v)
+
+/-- `c17_watch_iff_change` (`-W var:NAME`, repaired per-thread copy `fixVar`): in a single thread, at a
+    hook with room, an event is saved exactly when the value read differs from the value this thread
+    observed last (initially: the value at thread start); the event carries the new value; the new value
+    becomes the remembered one and the invariant is kept. Without room nothing changes (the change is
+    reported at a later hook). -/
+theorem c17_watch_var_iff_change (cfg : ECfg) (hfix : cfg.fixVar = true) (t ridx : Nat) (s : ESt) (k size v old : Nat)
+    (hold : s.wcopy[k]? = some old) (hk : k < s.glob.length) (hsync : VarSync s k)
+    (hroom : s.pend.length < MAX_EVENT) :
+    ((saveWatchVar cfg t ridx s k size v).pend = s.pend ++ [varEv t ridx k size v] ↔ v ≠ old) ∧
+    ((saveWatchVar cfg t ridx s k size v).pend = s.pend ∨
+      (saveWatchVar cfg t ridx s k size v).pend = s.pend ++ [varEv t ridx k size v]) ∧
+    (saveWatchVar cfg t ridx s k size v).wcopy[k]? = some v ∧
+    VarSync (saveWatchVar cfg t ridx s k size v) k := by
+  have hr : ¬ (s.pend.length ≥ MAX_EVENT) := by omega
+  have hkw : k < s.wcopy.length := by
+    have := List.getElem?_eq_some_iff.mp hold
+    exact this.1
+  unfold saveWatchVar
+  by_cases hv : v = old
+  · subst hv
+    simp [hr, hold, hsync]
+  · have h2 : (s.wcopy[k]? == some v) = false := by simp [hold]; omega
+    have h3 : (s.glob[k]? == some (some v)) = false := by
+      rcases hsync with h | ⟨w, h, hw⟩
+      · simp [h]
+      · rw [hold] at hw
+        have : w = old := by simpa using hw.symm
+        subst this
+        simp [h]; omega
+    simp only [hr, h2, h3, hfix, ↓reduceIte, Bool.false_eq_true]
+    refine ⟨by simp [hv], Or.inr (by first | rfl | trivial), by simp [hkw], Or.inr ⟨v, by simp [hk], by simp [hkw]⟩⟩
+
+/-- `c17_watch_multi_thread_partial`: with several threads the global item is shared, so what a thread's
+    hook does is (as coded): an event is saved iff there is room, the value differs from this thread's
+    remembered value AND from the last value reported by any thread (`glob`).  A value another thread
+    already reported is therefore not reported again by this one.  What is missing for a per-thread
+    "iff change" statement is exactly that second conjunct. -/
+theorem c17_watch_multi_thread_partial (cfg : ECfg) (t ridx : Nat) (s : ESt) (k size v : Nat) :
+    (saveWatchVar cfg t ridx s k size v).pend = s.pend ++ [varEv t ridx k size v] ↔
+      (s.pend.length < MAX_EVENT ∧ s.wcopy[k]? ≠ some v ∧ s.glob[k]? ≠ some (some v)) := by
+  unfold saveWatchVar
+  by_cases h1 : s.pend.length ≥ MAX_EVENT
+  · simp [h1]; omega
+  · by_cases h2 : s.wcopy[k]? = some v
+    · simp [h1, h2]
+    · by_cases h3 : s.glob[k]? = some (some v)
+      · have : (s.wcopy[k]? == some v) = false := by simpa using h2
+        simp only [h1, this, h3, ↓reduceIte, Bool.false_eq_true, beq_self_eq_true]
+        cases cfg.fixVar <;> simp
+      · have a : (s.wcopy[k]? == some v) = false := by simpa using h2
+        have b : (s.glob[k]? == some (some v)) = false := by simpa using h3
+        simp only [h1, a, b, ↓reduceIte, Bool.false_eq_true]
+        cases cfg.fixVar <;> simp [h2, h3] <;> omega
+
+
+/-- `c17_event_times_inside`: time stamps of the events a call's hooks save, for a call [t0, t1] with
+    t0 + 2 <= t1 (the duration the -1 / +2 rule needs; one hypothesis, stated once):
+    * read events carry t0, diff events t1 (`c17_read_diff_placement`);
+    * the watch events of the exit hook carry t1 - 1: inside [t0, t1) — written before EXIT;
+    * the watch events of the thread's first observation (entry hook) carry t0 + 1: inside (t0, t1) —
+      after ENTRY, before EXIT;
+    * the other watch events of an entry hook carry t0 - 1: just before the call's ENTRY, i.e. inside the
+      caller's interval whenever the caller was entered before t0.
+    `W` are the events the hook appends to the pending list (see `watchStep_spec`). -/
+theorem c17_event_times_inside (cfg : ECfg) (s : ESt) (b : Frame) (ri : Nat) (o : Obs) (t0 t1 : Nat)
+    (hb : b.start = t0) (hdur : t0 + 2 ≤ t1) :
+    ∃ W, (watchStep cfg s b ri o).pend = s.pend ++ W ∧ ∀ e ∈ W,
+      (b.endT = t1 → s.winited = true → e.time = t1 - 1 ∧ t0 ≤ e.time ∧ e.time < t1) ∧
+      (b.endT = 0 → s.winited = false → e.time = t0 + 1 ∧ t0 < e.time ∧ e.time < t1) ∧
+      (b.endT = 0 → s.winited = true → e.time + 1 = t0 ∨ t0 = 0) := by
+  obtain ⟨_, W, hW, hWe⟩ := watchStep_spec cfg s b ri o
+  refine ⟨W, hW, ?_⟩
+  intro e he
+  have ht := (hWe e he).1
+  refine ⟨?_, ?_, ?_⟩
+  · intro h1 h2
+    have : (t1 != 0) = true := by simp; omega
+    simp [watchTime, hookTime, h1, h2, this] at ht
+    omega
+  · intro h1 h2
+    simp [watchTime, hookTime, h1, h2, hb] at ht
+    omega
+  · intro h1 h2
+    simp [watchTime, hookTime, h1, h2, hb] at ht
+    omega
+
+/-- the hypothesis is needed: a 1 ns call whose entry hook makes the thread's first observation gets
+    its watch event stamped with the exit time, so it is written after the EXIT record -/
+example : watchTime { addr := 1, start := 1000, depth := 0 } false = 1001 := by decide
+
+/-! ## Part 3: calls dropped by the time filter -/
+
+/-- `c17_dropped_with_call`: a call that the time filter drops (it and all its callees last at most the
+    threshold) contributes nothing: no ENTRY/EXIT, no read/diff event (they live in the frame and go with
+    it) and — with the repaired tag rule `fixIdx` — no watch event: the stream, the pending events and the
+    open frames after the call are exactly those before it.  Any watchpoints, read triggers, -A and -R,
+    any nesting inside recorded callers (`GoodT`: the state between hooks at depth `d`). -/
+theorem c17_dropped_with_call (cfg : ECfg) (hp : PlainT cfg) (hfix : cfg.fixIdx = true) (k : Kind)
+    (c : ECall) (s : ESt) (d : Nat) (hg : GoodT s d)
+    (hm : d + c.height ≤ cfg.base.maxStack) (hd : d + c.height ≤ cfg.base.depthOpt)
+    (hs : c.short cfg.base.threshold) :
+    (runECall cfg k s c).out = s.out ∧ (runECall cfg k s c).pend = s.pend ∧
+    (runECall cfg k s c).frames = s.frames := by
+  obtain ⟨h1, h2, h3, _⟩ := dropped_call cfg hp hfix k c s d hg hm hd hs
+  exact ⟨h1, h2, h3⟩
+
+example : PlainT ({ base := { threshold := 50 }, watchCpu := true, varSizes := [8] } : ECfg) := by
+  constructor <;> simp [ASYNC_IDX, Gen.EventTab.ASYNC_IDX]
+
+example : GoodT (ESt.init ({ base := { threshold := 50 }, watchCpu := true } : ECfg) [] []) 0 := by
+  constructor <;> simp [ESt.init, NoSkipE, noMaxDepth, noTime]
+
+/-- … except asynchronous events, which force the flush (as coded): if an asynchronous event is pending
+    when the exit hook has saved its watch events, record_trace_data runs although the time filter
+    rejects the call, and the call's EXIT record is written. -/
+theorem c17_dropped_async_flush (cfg : ECfg) (sB : ESt) (f f1 : EFrame) (rest : List EFrame) (tf : Nat)
+    (retv : Bool) (o : Obs)
+    (hshort : ¬ (f.b.endT - f.b.start > tf)) (hw : f.b.written = false) (htr : f.b.trace = false)
+    (hasync : hasAsync (watchStep cfg sB f1.b rest.length o).pend = true) (hend : f1.b.endT ≠ 0) :
+    ∃ pre, (exitFinish cfg sB f f1 rest tf retv o).out =
+      sB.out ++ pre ++ [.record (exitRec f1.b) (retPayload cfg retv f1)] := by
+  have hs := (watchStep_spec cfg sB f1.b rest.length o).1
+  have hc : ((decide (f.b.endT - f.b.start > tf) && (!cfg.base.callerMode || f.b.caller)) || f.b.written || f.b.trace) = false := by
+    simp [hshort, hw, htr]
+  have hne : (watchStep cfg sB f1.b rest.length o).pend.isEmpty = false := by
+    cases hp : (watchStep cfg sB f1.b rest.length o).pend with
+    | nil => rw [hp] at hasync; simp [hasAsync] at hasync
+    | cons a r => rfl
+  have he : (f1.b.endT != 0) = true := by simp [hend]
+  have hlast : ∃ pre, (recordTraceE cfg retv (f1 :: rest) (watchStep cfg sB f1.b rest.length o).pend).2.2 =
+      pre ++ [.record (exitRec f1.b) (retPayload cfg retv f1)] := by
+    apply List.getLast?_eq_some_iff.mp
+    simp [recordTraceE, he, recExit]
+  obtain ⟨pre, hpre⟩ := hlast
+  unfold exitFinish
+  simp only [hc, Bool.false_eq_true, ↓reduceIte, hne, Bool.not_false, hasync, ESt.recorded, hs.out, hpre]
+  exact ⟨pre, by simp⟩
+
+
+/-! ## Part 4: the as-coded variants of the unchanged tree violate the property (witnesses)
+
+Each witness is a concrete history on which the model with one repair switched off (the variant the
+correspondence check finds the unchanged implementation to follow) breaks the statement above it,
+next to the repaired variant which keeps it. -/
+
+/-- the event records of a stream as (id, time, data) -/
+def evsOf (out : List Out) : List (Nat × Nat × List Nat) :=
+  out.filterMap fun | .event e => some (e.id, e.time, e.data) | .record _ _ => none
+
+def obsRU (maj min : Nat) : Obs := { reads := fun b => if b = 2 then some [maj, min] else none }
+
+/-- `f1@read=page-fault` together with `-A f1@arg1` (8 bytes) -/
+def cfgArg (fix : Bool) : ECfg :=
+  { read := fun f => if f = 1 then 2 else 0, argSize := fun f => if f = 1 then some 8 else none, fixArg := fix }
+
+/-- F17c: with an argument on the same function the exit hook reads the low word of the entry event's
+    time stamp (1010) as "argument size": the diff event is lost (as coded); the repaired code writes
+    read (5, 100) after ENTRY and diff (3, 50) before EXIT. -/
+theorem c17_prefix_diff_lost_witness :
+    evsOf (runECall (cfgArg false) .pg (ESt.init (cfgArg false) [] []) (.node 1 1010 1030 (obsRU 5 100) (obsRU 8 150) .nil)).out =
+      [(100002, 1010, [5, 100])] ∧
+    evsOf (runECall (cfgArg true) .pg (ESt.init (cfgArg true) [] []) (.node 1 1010 1030 (obsRU 5 100) (obsRU 8 150) .nil)).out =
+      [(100002, 1010, [5, 100]), (100004, 1030, [3, 50])] := by
+  decide
+
+/-- `-W var:v` (8 bytes) -/
+def cfgVar (fix : Bool) : ECfg := { varSizes := [8], fixVar := fix }
+def obsV (v : Nat) : Obs := { vars := [v] }
+
+/-- F17b: the variable goes 0 -> 1 -> 0 -> 1 -> 2 over five hooks of one thread.  As coded only 1 and 2 are
+    reported (the thread's copy still holds the start value 0, the global item the last reported 1);
+    repaired, every change is. -/
+theorem c17_prefix_var_change_lost_witness :
+    evsOf (runECalls (cfgVar false) .pg (ESt.init (cfgVar false) [0] [none])
+      (.cons (.node 1 1000 1070 (obsV 0) (obsV 2)
+        (.cons (.node 2 1010 1020 (obsV 1) (obsV 1) .nil) (.cons (.node 2 1030 1040 (obsV 0) (obsV 0) .nil)
+          (.cons (.node 2 1050 1060 (obsV 1) (obsV 1) .nil) .nil)))) .nil)).out =
+      [(100012, 1009, [0, 1]), (100012, 1069, [0, 2])] ∧
+    evsOf (runECalls (cfgVar true) .pg (ESt.init (cfgVar true) [0] [none])
+      (.cons (.node 1 1000 1070 (obsV 0) (obsV 2)
+        (.cons (.node 2 1010 1020 (obsV 1) (obsV 1) .nil) (.cons (.node 2 1030 1040 (obsV 0) (obsV 0) .nil)
+          (.cons (.node 2 1050 1060 (obsV 1) (obsV 1) .nil) .nil)))) .nil)).out =
+      [(100012, 1009, [0, 1]), (100012, 1029, [0, 0]), (100012, 1049, [0, 1]), (100012, 1069, [0, 2])] := by
+  decide
+
+/-- `-W cpu -t 50` -/
+def cfgDrop (fix : Bool) : ECfg := { base := { threshold := 50 }, watchCpu := true, fixIdx := fix }
+def obsC (c : Nat) : Obs := { cpu := c }
+
+/-- F17d: f2 [1200, 1210] is dropped by -t 50; its entry hook saw the cpu change 3 -> 4.  As coded the
+    watch event (time 1199) stays pending and is written before the next recorded call; repaired, it is
+    dropped with the call (`c17_dropped_with_call`). -/
+theorem c17_prefix_watch_survives_witness :
+    evsOf (runECalls (cfgDrop false) .pg (ESt.init (cfgDrop false) [] [])
+      (.cons (.node 1 1000 1100 (obsC 3) (obsC 3) .nil) (.cons (.node 2 1200 1210 (obsC 4) (obsC 4) .nil)
+        (.cons (.node 3 1300 1400 (obsC 4) (obsC 4) .nil) .nil)))).out =
+      [(100011, 1001, [3]), (100011, 1199, [4])] ∧
+    evsOf (runECalls (cfgDrop true) .pg (ESt.init (cfgDrop true) [] [])
+      (.cons (.node 1 1000 1100 (obsC 3) (obsC 3) .nil) (.cons (.node 2 1200 1210 (obsC 4) (obsC 4) .nil)
+        (.cons (.node 3 1300 1400 (obsC 4) (obsC 4) .nil) .nil)))).out =
+      [(100011, 1001, [3])] := by
+  decide
+
 end Uft.C17
